@@ -42,9 +42,9 @@ def check(run):
     sel = [r for r in mal if r.get("entry") == "frame" and r.get("compression", "none") == "none" and r.get("outcome") in ("ok", "err")
            and len(r.get("input", "")) <= 12000]
     if run.tier == "quick":
-        sel = sel[:5000]
+        sel = sel[:12000]
     for r in sel:
-        if r["outcome"] == "ok" and r.get("decoded"):
+        if r["outcome"] == "ok" and r.get("decoded") and len(r["decoded"]) <= 20000:
             cases.append((r["id"], "match decode_frame the_msg_codec None %s with DOk f _ => Frame_beq (canon_frame f) (canon_frame %s) | _ => false end" % (
                 fc.hxs(r["input"]), r["decoded"])))
         else:
